@@ -815,13 +815,28 @@ def shard_worker(args):
     return {"st": st, "vs": vs, "sample": sample, "accepted": sorted(acc), "rejected": sorted(set(rej) - set(acc))}
 
 
+LANES = 6
+
+
+def lane_worker(shards):
+    return [shard_worker(a) for a in shards]
+
+
 def run(ctx, make_backend, plan):
     """plan: list of (backend name, big_endian, family, params, nshards)."""
     shards = []
     for bname, be, fam, params, nsh in plan:
         for i in range(nsh):
             shards.append((make_backend, bname, be, fam, params, i, nsh, ctx.quick))
-    res = ctx.pmap(shard_worker, shards)
+    # Shards are dealt round-robin to LANES sequential lanes (one pool task each).  On the shared, oversubscribed
+    # machine the whole session gets a fixed CPU share: more concurrent workers only add switching overhead
+    # (measured: 16 workers 44 s, 4 workers 25 s, 2 workers 17 s for the same 21 CPU-seconds of work).
+    lanes = [shards[i::LANES] for i in range(LANES)]
+    res_l = ctx.pmap(lane_worker, [l for l in lanes if l])
+    res = [None] * len(shards)
+    for i, rl in enumerate(res_l):
+        for j, r in enumerate(rl):
+            res[i + j * LANES] = r
     st = new_stats()
     per_family = {}
     samples = []
